@@ -27,13 +27,8 @@ func isConstAlloc(a *ssa.Alloc) bool {
 
 func computeConstAlloc(a *ssa.Alloc) bool {
 	refs := a.Referrers()
-	if refs == nil || a.Block() == nil || a.Block().Index != 0 {
+	if refs == nil || a.Block() == nil || onCycle(a.Block()) {
 		return false
-	}
-	entry := a.Parent().Blocks[0]
-	pos := map[ssa.Instruction]int{}
-	for i, ins := range entry.Instrs {
-		pos[ins] = i
 	}
 	var store *ssa.Store
 	for _, r := range *refs {
@@ -64,10 +59,16 @@ func computeConstAlloc(a *ssa.Alloc) bool {
 			return false
 		}
 	}
-	if store == nil || store.Block() != entry {
+	if store == nil || onCycle(store.Block()) {
 		return false
 	}
-	// the initialising store precedes every other use (the entry block runs exactly once and dominates the rest)
+	// the initialising store runs at most once (its block is on no cycle) and precedes every other use: it comes
+	// first in its own block and its block dominates the block of every other use
+	sb := store.Block()
+	pos := map[ssa.Instruction]int{}
+	for i, ins := range sb.Instrs {
+		pos[ins] = i
+	}
 	for _, r := range *refs {
 		if r == ssa.Instruction(store) {
 			continue
@@ -75,11 +76,36 @@ func computeConstAlloc(a *ssa.Alloc) bool {
 		if _, dbg := r.(*ssa.DebugRef); dbg {
 			continue
 		}
-		if r.Block() == entry && pos[r] < pos[store] {
+		if r.Block() == sb {
+			if pos[r] < pos[store] {
+				return false
+			}
+			continue
+		}
+		if !sb.Dominates(r.Block()) {
 			return false
 		}
 	}
 	return true
+}
+
+// onCycle: b can be executed more than once in one activation of its function.
+func onCycle(b *ssa.BasicBlock) bool {
+	seen := map[*ssa.BasicBlock]bool{}
+	stack := append([]*ssa.BasicBlock{}, b.Succs...)
+	for len(stack) > 0 {
+		x := stack[len(stack)-1]
+		stack = stack[:len(stack)-1]
+		if x == b {
+			return true
+		}
+		if seen[x] {
+			continue
+		}
+		seen[x] = true
+		stack = append(stack, x.Succs...)
+	}
+	return false
 }
 
 func freeVarReadOnly(fv *ssa.FreeVar, depth int) bool {
